@@ -555,6 +555,10 @@ impl ErasedNode for Node {
         if let Some(Kind::Expert(expert)) = self.kind() {
             expert.observability_change(true)
         }
+        if let Some(Kind::MapRef(mapref)) = self.kind() {
+            // whatever child_changed last told us predates the time we were unnecessary
+            mapref.did_change.set(true);
+        }
     }
 
     fn check_if_unnecessary(&self, state: &State) {
@@ -1296,9 +1300,14 @@ impl ErasedNode for Node {
                 let child_new = child.value_as_any().ok_or(ParentError::ChildHasNoValue)?;
                 let self_new = (mapref.mapper)(&*child_new);
 
-                let did_change = self_old.map_or(true, |old| {
-                    !self.cutoff.borrow_mut().should_cutoff(old, self_new)
-                });
+                /* The comparison below only covers this one change of [child]. If we are
+                already in the recompute heap, we were stale before it, i.e. we missed earlier
+                changes while we were not a parent of [child], so we must report a change. */
+                let missed_earlier_changes = self.is_in_recompute_heap();
+                let did_change = missed_earlier_changes
+                    || self_old.map_or(true, |old| {
+                        !self.cutoff.borrow_mut().should_cutoff(old, self_new)
+                    });
                 mapref.did_change.set(did_change);
                 // now we propagate to parent
                 // (but first, set the only_in_debug stuff & recomputed_at <- t.stabilisation_num)
